@@ -380,11 +380,40 @@ class Evaluator:
             if k in st.env:
                 return st.env[k]
             if self.fold_consts:
-                v = self.repo.fold_in(e, self.fi)
-                if v is not UNKNOWN and isinstance(v, (int, str, bytes, bool, float)) and not k.startswith("self."):
-                    return const(v)
+                if not k.startswith("self."):
+                    v = self.repo.fold_in(e, self.fi)
+                    if v is not UNKNOWN and isinstance(v, (int, str, bytes, bool, float)):
+                        return const(v)
+                elif b[1] == "self":
+                    v = self._class_const(e.attr)
+                    if v is not UNKNOWN:
+                        return const(v)
             return ("sym", k)
         return ("attr", b, e.attr)
+
+    def _class_const(self, attr: str) -> Any:
+        """value of a class-level constant read through self (never stored as an instance attribute anywhere)"""
+        from .util import mutable_attrs
+
+        p = self.fi
+        while p is not None and p.cls is None:
+            p = p.parent
+        if p is None:
+            return UNKNOWN
+        ci = p.cls
+        if attr in mutable_attrs(self.repo):
+            return UNKNOWN
+        init = ci.methods.get("__init__")
+        if init is not None and any(isinstance(x, ast.Attribute) and x.attr == attr and isinstance(x.ctx, ast.Store) for x in ast.walk(init.node)):
+            return UNKNOWN
+        seen = set()
+        while ci is not None and ci.name not in seen:
+            seen.add(ci.name)
+            if attr in ci.consts and isinstance(ci.consts[attr], (int, str, bytes, bool, float)):
+                return ci.consts[attr]
+            bases = [self.repo.classes.get(b) for b in getattr(ci, "bases", [])]
+            ci = next((b for b in bases if b is not None), None)
+        return UNKNOWN
 
     def t_Tuple(self, e, st, log, nid):
         return ("tuple",) + tuple(self.term(x, st, log, nid) for x in e.elts)
